@@ -33,10 +33,12 @@ macro_rules! update_first_token {
 }
 
 fn is_function_or_table_constructor(expression: &Expression) -> bool {
-    matches!(
-        expression,
-        Expression::TableConstructor(_) | Expression::Function(_)
-    )
+    match expression {
+        Expression::TableConstructor(_) | Expression::Function(_) => true,
+        // Redundant parentheses around a function or table are removed when formatting
+        Expression::Parentheses { expression, .. } => is_function_or_table_constructor(expression),
+        _ => false,
+    }
 }
 
 pub fn format_return(ctx: &Context, return_node: &Return, shape: Shape) -> Return {
